@@ -245,6 +245,14 @@ def handle : List String → Option String
     match b.toNat?, t.toNat? with
     | some b, some t => let v := runeIdLoad (b, t); some s!"{v.block} {v.tx}"
     | _, _ => some "bad-op"
+  | ["storage.rune.store", n] =>
+    match n.toNat? with
+    | some n => some (toString (runeStore n))
+    | none => some "bad-op"
+  | ["storage.rune.load", n] =>
+    match n.toNat? with
+    | some n => some (toString (runeLoad n))
+    | none => some "bad-op"
   | ["storage.runeentry.store", bl, bu, d, e, mi, nu, pr, ru, sp, sy, te, ti, tu] =>
     match bl.toNat?, bu.toNat?, d.toNat?, hex32 e, mi.toNat?, nu.toNat?, pr.toNat?, ru.toNat?,
       sp.toNat?, optNat sy, parseTerms te, ti.toNat?, parseBool tu with
